@@ -582,7 +582,7 @@ def rule_G(ctx):
             src = t.call('getAnalyticalFeature', 'a')
         except orders.Unsupported as ex:
             raise shape_error('Filter.execute not interpretable: %s' % ex, ff.loc())
-        except (ZeroDivisionError, IndexError, KeyError, TypeError, AttributeError, ValueError, orders.Raised) as ex:
+        except orders.PROGRAM_ERRORS as ex:
             found.setdefault('fails', (ff, 'filtering does not fail on a signal at least as long as the window', dict(case, exception='%s: %s' % (type(ex).__name__, str(ex)[:160]))))
             return
         D = len(weights) // 2
@@ -629,7 +629,7 @@ def rule_G(ctx):
             got = t.call('getAnalyticalFeature', 'a')
         except orders.Unsupported as ex:
             raise shape_error('Filter.execute not interpretable: %s' % ex, ff.loc())
-        except (ZeroDivisionError, IndexError, KeyError, TypeError, AttributeError, ValueError, orders.Raised) as ex:
+        except orders.PROGRAM_ERRORS as ex:
             found.setdefault('fails', (ff, 'filtering does not fail on a signal at least as long as the window', {'kernel': wl, 'in place': True, 'exception': '%s: %s' % (type(ex).__name__, str(ex)[:160])}))
             continue
         want = [xs[i] if (i < D or i >= len(xs) - D) else mean_window(xs, w_, i, True) for i in range(len(xs))]
@@ -663,7 +663,7 @@ def rule_G(ctx):
             win = k.call('toSlidingWindow')
         except orders.Unsupported as ex:
             raise shape_error('%s not interpretable: %s' % (label, ex), fk.loc())
-        except (ZeroDivisionError, IndexError, KeyError, TypeError, AttributeError, ValueError, orders.Raised) as ex:
+        except orders.PROGRAM_ERRORS as ex:
             found.setdefault('window-fails', (fk, 'the sliding window of a built-in kernel can be computed', {'kernel': label, 'exception': '%s: %s' % (type(ex).__name__, str(ex)[:160])}))
             continue
         n_cases += 1
@@ -707,7 +707,7 @@ def rule_G(ctx):
             res = fn['__name__']('filter_seq')(t, mk(), ['x', 'y'])
         except orders.Unsupported as ex:
             raise shape_error('filter_seq not interpretable: %s' % ex, fs.loc())
-        except (ZeroDivisionError, IndexError, KeyError, TypeError, AttributeError, ValueError, orders.Raised) as ex:
+        except orders.PROGRAM_ERRORS as ex:
             found.setdefault('seq-fails', (fs, 'filter_seq does not fail', {'exception': '%s: %s' % (type(ex).__name__, str(ex)[:160])}))
             continue
         for tr_label, tr in (('the track passed', t), ('the track returned', res)):
@@ -737,7 +737,7 @@ def rule_G(ctx):
                 fn['__name__']('filter_seq')(t_, [1.0, 2.0, 1.0])
         except orders.Unsupported as ex:
             raise shape_error('filter_seq not interpretable: %s' % ex, fs.loc())
-        except (ZeroDivisionError, IndexError, KeyError, TypeError, AttributeError, ValueError, orders.Raised) as ex:
+        except orders.PROGRAM_ERRORS as ex:
             found.setdefault('seq-fails', (fs, 'filter_seq does not fail', {'history': 'three calls with the default dimensions', 'exception': '%s: %s' % (type(ex).__name__, str(ex)[:160])}))
             continue
         win3 = [0.25, 0.5, 0.25]
@@ -768,7 +768,7 @@ def rule_G(ctx):
                 fn['__name__']('filter_seq')(t_, [1.0, 2.0, 1.0], list(dims))
         except orders.Unsupported as ex:
             raise shape_error('filter_seq not interpretable: %s' % ex, fs.loc())
-        except (ZeroDivisionError, IndexError, KeyError, TypeError, AttributeError, ValueError, orders.Raised) as ex:
+        except orders.PROGRAM_ERRORS as ex:
             found.setdefault('seq-fails', (fs, 'filter_seq does not fail', {'track': 'height missing (NaN) at the first fix', 'exception': '%s: %s' % (type(ex).__name__, str(ex)[:160])}))
             continue
         wz = [zin[i] if (i < 1 or i >= len(xs) - 1) else mean_window(zin, [0.25, 0.5, 0.25], i, True) for i in range(len(xs))]
@@ -789,7 +789,7 @@ def rule_G(ctx):
                 got = t.call('getAnalyticalFeature', 'b')
             except orders.Unsupported as ex:
                 raise shape_error('Filter.execute not interpretable: %s' % ex, ff.loc())
-            except (ZeroDivisionError, IndexError, KeyError, TypeError, AttributeError, ValueError, orders.Raised) as ex:
+            except orders.PROGRAM_ERRORS as ex:
                 found.setdefault('fails', (ff, 'filtering does not fail on a signal at least as long as the window', {'signal held as': kname, 'exception': '%s: %s' % (type(ex).__name__, str(ex)[:160])}))
                 continue
             want = [xs_[i] if (i < 1 or i >= len(xs_) - 1) else mean_window(xs_, [0.25, 0.5, 0.25], i, True) for i in range(len(xs_))]
